@@ -603,7 +603,9 @@ impl<K, V, S> Inner<K, V, S> {
 
     #[inline]
     fn set_valid_after(&self, timestamp: Instant) {
-        self.valid_after.set_instant(timestamp);
+        // Never move backwards: when `invalidate_all` calls race, the one that read
+        // the earlier time may store last.
+        self.valid_after.set_instant_if_later(timestamp);
     }
 
     #[inline]
